@@ -158,12 +158,9 @@ Proof. exact addrs_all_sound_l. Qed.
 Print Assumptions c17_addrs_all_sound.
 
 (* Addrs(0), per local address: it is the concatenation, over the distinct
-   listen addresses, of that address's AddrsFor answer (each at most three and
-   sorted by c17_at_most_three_sorted).  _partial: on the implementation's
-   traces the monitor judges membership and total size of Addrs(0); the
-   per-local segmentation of Addrs(0) is tied to the code by the conformance
-   comparison of the exact list only. *)
-Theorem c17_addrs_all_per_local_partial : forall cfg ops, cap cfg = the_cap ->
+   listen addresses, of that address's AddrsFor answer joined with its rest (each
+   at most three and sorted by c17_at_most_three_sorted) ... *)
+Theorem c17_addrs_all_per_local : forall cfg ops, cap cfg = the_cap ->
   let st := reach cfg ops in
   addrs_all cfg st =
     flat_map (fun la : laddr => map (fun x => (x, snd la)) (addrs_for cfg st la))
@@ -171,7 +168,20 @@ Theorem c17_addrs_all_per_local_partial : forall cfg ops, cap cfg = the_cap ->
   (forall la, In la (dedup_laddr [] (listen cfg)) -> In la (listen cfg)) /\
   (forall la, (length (addrs_for cfg st la) <= 3)%nat).
 Proof. exact addrs_all_per_local_l. Qed.
-Print Assumptions c17_addrs_all_per_local_partial.
+Print Assumptions c17_addrs_all_per_local.
+
+(* ... and the clause of the monitor that judges this on the implementation's
+   traces (Addrs(0) is covered, as a multiset, by the per-local AddrsFor answers
+   of the same moment, which check_for judges in full) holds in every state of
+   the model; it is part of mon_check, hence of c17_monitor_accepts_model.
+   (This closes the former c17_addrs_all_per_local_partial: the missing part was
+   a monitor clause attributing the elements of the flat list to local
+   addresses; the attribution is by the per-local answers.) *)
+Theorem c17_addrs_all_covered_by_addrs_for : forall cfg st,
+  check_cover cfg (map (addrs_for cfg st) (queries cfg)) (addrs_all cfg st) = true.
+Proof. exact check_cover_model. Qed.
+Print Assumptions c17_addrs_all_covered_by_addrs_for.
+
 
 (* regenerated constants: both caps are the specification's three, and the
    host-level truncation in addrs_manager.appendObservedAddrs drops nothing *)
@@ -288,6 +298,13 @@ Example monitor_rejects_wrong_order :
         [(Observe 0 ex_obs, mkO [[5]] [(5, 0)] false);
          (Observe 1 ex_obs, mkO [[5]] [(5, 0)] false);
          (Observe 2 (mkObs false false false (Some (mkTW 7 4 6))), mkO [[7; 5]] [(7, 0); (5, 0)] false)] = false.
+Proof. vm_compute. reflexivity. Qed.
+
+(* ... an Addrs(0) that reports for a local address more than AddrsFor does
+   (a fourth address above the threshold; threshold 0 keeps the example short) *)
+Example monitor_rejects_addrs0_beyond_addrs_for :
+  mon_check (mkCfg 0 the_cap [(Some 0, 0); (Some 1, 0)] [(Some 0, 0); (Some 1, 0)] []) mon_init
+            (mkO [[1; 2; 3]; []] [(1, 0); (2, 0); (3, 0); (4, 0)] false) = [-3].
 Proof. vm_compute. reflexivity. Qed.
 
 (* and accepts the right one *)
